@@ -164,7 +164,12 @@ def _table_kind(call, loopvar):
     raise TranslateError("unrecognised value installed by a table loop")
 
 
+FLAGS = {}
+
+
 def install_steps(fn):
+    FLAGS.clear()
+    FLAGS["nowrap_reads_noncallables"] = False
     steps = []          # coq terms
     summary = []        # python tuples for the harness
     for st in fn.body:
@@ -220,7 +225,13 @@ def install_steps(fn):
                 if len(body) == 1 and isinstance(body[0], ast.If) and not body[0].orelse:
                     atoms = _cond_atoms(body[0].test)
                     body = body[0].body
-                # optional local:  is_property = isinstance(getattr(TensorDictBase, method_name, None), property)
+                # optional locals:  [td_attr = getattr(TensorDictBase, method_name, None);]  is_property = isinstance(..., property) [or not callable(...)]
+                for b in body:
+                    if isinstance(b, ast.Assign) and len(b.targets) == 1 and isinstance(b.targets[0], ast.Name) and b.targets[0].id == "is_property":
+                        src = ast.unparse(b.value)
+                        if "property" not in src:
+                            raise TranslateError("is_property is no longer computed from `property`")
+                        FLAGS["nowrap_reads_noncallables"] = "not callable(" in src
                 body = [b for b in body if not (isinstance(b, ast.Assign) and len(b.targets) == 1 and isinstance(b.targets[0], ast.Name))]
                 if not (len(body) == 1 and isinstance(body[0], ast.Expr) and _is_call(body[0].value, "setattr") and len(body[0].value.args) == 3
                         and isinstance(body[0].value.args[1], ast.Name) and body[0].value.args[1].id == var):
@@ -277,9 +288,47 @@ def c15_tables():
     lines.append(f"Definition tbl_pass_through : list string := {strs(tabs['_TD_PASS_THROUGH'])}.")
     lines.append(f"Definition torch_handled_td : list string := {strs(td_fns)}.")
     lines.append(f"Definition torch_handled_lazy : list string := {strs(lazy_fns)}.")
+    lines.append("(* the no-wrap loop installs non-callable class attributes (is_meta ...) as properties, like properties *)")
+    lines.append(f"Definition nowrap_reads_noncallables : bool := {'true' if FLAGS['nowrap_reads_noncallables'] else 'false'}.")
     lines.append("Definition install_steps : list step := [\n  " + ";\n  ".join(steps) + "].")
     write_if_changed(os.path.join(COQ, "Gen", "C15_tables.v"), "\n".join(lines) + "\n")
-    return {"tables": {k: tabs[k] for k in tabs}, "steps": summary, "torch_td": td_fns, "torch_lazy": lazy_fns}
+    return {"tables": {k: tabs[k] for k in tabs}, "steps": summary, "torch_td": td_fns, "torch_lazy": lazy_fns, "flags": dict(FLAGS)}
+
+
+# dunders of the object / class protocol: not operators of the tensordict API
+NOT_OPERATORS = {"__hash__", "__abstractmethods__", "__annotations__", "__class_getitem__", "__dict__", "__doc__", "__init__", "__module__",
+                 "__slots__", "__subclasshook__", "__weakref__", "__torch_function__"}
+
+
+def reflection():
+    """lists obtained from the imported library (never from a hand-written list).  This is the one place of this module that
+    imports tensordict: it does not read source, it asks the running library what it exposes."""
+    import inspect
+    from tensordict import TensorDict as TD, TensorDictBase as Base
+    from tensordict import _torch_func as TF
+    allattrs = sorted(n for n in dir(TD) if '"' not in n)
+    public = sorted(n for n in dir(TD) if not n.startswith("_"))
+    props = [n for n in allattrs if isinstance(inspect.getattr_static(Base, n, None), property) or isinstance(inspect.getattr_static(TD, n, None), property)]
+    noncallable = [n for n in allattrs if n not in props and not callable(getattr(TD, n, None))]
+    dunders = sorted(n for n in dir(TD) if n.startswith("__") and n.endswith("__")
+                     and any(n in K.__dict__ for K in TD.__mro__ if K.__module__.startswith("tensordict")))
+    handled = []
+    for f in list(TF.TD_HANDLED_FUNCTIONS) + list(TF.LAZY_TD_HANDLED_FUNCTIONS):
+        n = getattr(f, "__name__", repr(f))
+        if n not in handled:
+            handled.append(n)
+    return {"td_public": public, "td_all": allattrs, "td_properties": props, "td_noncallable": noncallable,
+            "td_own_classmethods": [a for a in TD.__dict__ if inspect.ismethod(getattr(TD, a))],
+            "td_api_dunders": [d for d in dunders if d not in NOT_OPERATORS],
+            "td_handled_runtime": handled, "object_attrs": sorted(dir(object))}
+
+
+@translator("c15_reflect")
+def c15_reflect():
+    """registered so that `python -m harness.translate all` (setup.sh) also writes coq/Gen/C15_reflect.v on a fresh clone"""
+    refl = reflection()
+    write_reflection(refl)
+    return {k: len(v) for k, v in refl.items()}
 
 
 def write_reflection(refl):
